@@ -100,8 +100,15 @@ func (s *Server) RegisterMethod(rpcName string, receiver interface{}, methodName
 }
 
 // Handle executes a request message against the server registry.
-func (s *Server) Handle(ctx context.Context, req *Message) *Message {
-	r := &Message{
+func (s *Server) Handle(ctx context.Context, req *Message) (r *Message) {
+	defer func() {
+		// A reply carries either a result or an error, not both: a peer that
+		// looks at the result first would take an error for a success.
+		if r.Response != nil && r.Response.Error != nil {
+			r.Response.Result = nil
+		}
+	}()
+	r = &Message{
 		Response: &Response{
 			Result: nullResult,
 		},
